@@ -140,7 +140,11 @@ Record scn := mkscn {
   s_owns : list res;         (* what the object owns after a successful s_op *)
   s_reports : bool;          (* false: the C function is void by design (logging) *)
   s_retains : bool;          (* true: a failed op may keep blocks that the object owns (trie prefix nodes) *)
-  s_dfail : bool             (* true: destroy is also called after a reported failure ("safe to destroy") *)
+  s_dfail : bool;            (* true: destroy is also called after a reported failure ("safe to destroy") *)
+  s_values : list res;       (* caller-owned values stored in the container: destroy's free callback must
+                                release each exactly once *)
+  s_retry : bool             (* true: after a reported failure the operation is retried without faults
+                                ("safe to retry") before destroy runs *)
 }.
 
 Record outcome := mkout {
@@ -151,19 +155,32 @@ Record outcome := mkout {
   o_base : list res;         (* live before the operation *)
   o_dlive : list res;        (* live after the following destroy *)
   o_dbad : bool;             (* destroy crashed / double-freed *)
-  o_labels : list nat        (* cleanup blocks entered by the operation, in order *)
+  o_labels : list nat;       (* cleanup blocks entered by the operation, in order *)
+  o_retry_ok : bool;         (* no retry was due, or the retry succeeded without crashing *)
+  o_freed : nat              (* how many of s_values the destroy phase released *)
 }.
 
 Definition restart (x : st) : st := mkst 0 (live x) (pv x) Ok None (bad x) [].
+
+Definition count_in (vals l : list res) : nat :=
+  length (filter (fun r => existsb (Nat.eqb r) vals) l).
 
 Definition run_scn (sc : scn) (f : nat -> bool) : outcome :=
   let x0 := restart (exec_list no_fault (s_pre sc) init_st) in
   let x1 := exec_list f (s_op sc) x0 in
   let rc1 := match fin x1 with Some c => c | None => Ok end in
-  let x2 := if (match rc1 with Ok => true | Fail => s_dfail sc end)
-            then exec_list no_fault (s_destroy sc) (mkst (cnt x1) (live x1) (pv x1) Ok None (bad x1) [])
+  (* retry of the failed operation, no faults *)
+  let retry := match rc1 with Ok => false | Fail => s_retry sc end in
+  let xr := if retry
+            then exec_list no_fault (s_op sc) (mkst (cnt x1) (live x1) (pv x1) Ok None (bad x1) [])
             else x1 in
-  mkout rc1 (cnt x1) (live x1) (bad x1) (live x0) (live x2) (bad x2) (rev (trace x1)).
+  let rcr := match fin xr with Some c => c | None => Ok end in
+  let x2 := if (match rcr with Ok => true | Fail => s_dfail sc end)
+            then exec_list no_fault (s_destroy sc) (mkst (cnt xr) (live xr) (pv xr) Ok None (bad xr) [])
+            else xr in
+  mkout rc1 (cnt x1) (live x1) (bad x1) (live x0) (live x2) (bad x2) (rev (trace x1))
+        (if retry then (match rcr with Ok => true | Fail => false end) && negb (bad xr) else true)
+        (count_in (s_values sc) (live xr) - count_in (s_values sc) (live x2)).
 
 (* ---------- decision-tree exploration of ALL fault functions ---------- *)
 
@@ -196,14 +213,17 @@ Definition is_nil (l : list res) : bool := match l with [] => true | _ => false 
 Definition hit (f : nat -> bool) (n : nat) : bool := existsb f (seq 0 n).
 Definition first_hit (f : nat -> bool) (n : nat) : option nat := find f (seq 0 n).
 
+Definition freed_all (sc : scn) (o : outcome) : bool := Nat.eqb (o_freed o) (length (s_values sc)).
+
 Definition good_ok (sc : scn) (o : outcome) : bool :=
   rc_eqb (o_rc o) Ok && negb (o_bad o) && same_set (o_live o) (s_owns sc)
-  && negb (o_dbad o) && is_nil (o_dlive o).
+  && negb (o_dbad o) && is_nil (o_dlive o) && freed_all sc o.
 
 Definition good_fail (sc : scn) (o : outcome) : bool :=
   (if s_reports sc then rc_eqb (o_rc o) Fail else true) && negb (o_bad o)
   && (if s_retains sc then true else same_set (o_live o) (o_base o))
-  && negb (o_dbad o) && is_nil (o_dlive o).
+  && negb (o_dbad o) && is_nil (o_dlive o)
+  && (if s_retry sc then o_retry_ok o && freed_all sc o else true).
 
 Definition good (sc : scn) (f : nat -> bool) (o : outcome) : bool :=
   if hit f (o_att o) then good_fail sc o else good_ok sc o.
@@ -219,7 +239,8 @@ Definition out_eqb (a b : outcome) : bool :=
   rc_eqb (o_rc a) (o_rc b) && Nat.eqb (o_att a) (o_att b) && list_eqb (o_live a) (o_live b)
   && Bool.eqb (o_bad a) (o_bad b) && list_eqb (o_base a) (o_base b)
   && list_eqb (o_dlive a) (o_dlive b) && Bool.eqb (o_dbad a) (o_dbad b)
-  && list_eqb (o_labels a) (o_labels b).
+  && list_eqb (o_labels a) (o_labels b) && Bool.eqb (o_retry_ok a) (o_retry_ok b)
+  && Nat.eqb (o_freed a) (o_freed b).
 
 (* behaviour under the leaf's oracle equals behaviour under its first hit alone *)
 Definition reduces (sc : scn) (q : list bool) : bool :=
